@@ -790,7 +790,7 @@ fn ref_qratio_f32(q: u32, q3: u32) -> u8 {
     ((quo as u32) % 16) as u8
 }
 
-//@ h=f_short_main props=C01,C10,C11,C15,C03,C07,C17 cfgs=K1,K3 tier=q t=900 native=native_f_short | funcs: inner::Generator<Short>::finalize_with_options, processed_len, DataLengthValidity, naive aggregate_48, FuzzyHash::from_raw | bound: ALL states: 48 symbolic u32 counters (incl. >=2^24, >=2^31), symbolic len (full u32) and tail_len<=4, symbolic checksum, all 32 option settings; gates in order, checksum, length code and body checked, state unchanged by finalize; Q-ratio value not checked here | stubs: <[u32]>::select_nth_unstable -> order statistic of the ghost copy defined by counting (+ explicit monotonicity); FuzzyHashLengthEncoding::new -> its contract (proved by c09_new_total/c09_code_def)
+//@ h=f_short_main props=C01,C10,C11,C15,C03,C07,C17,C09 cfgs=K1,K3 tier=q t=900 native=native_f_short | funcs: inner::Generator<Short>::finalize_with_options, processed_len, DataLengthValidity, naive aggregate_48, FuzzyHash::from_raw | bound: ALL states: 48 symbolic u32 counters (incl. >=2^24, >=2^31), symbolic len (full u32) and tail_len<=4, symbolic checksum, all 32 option settings; gates in order, checksum, length code and body checked, state unchanged by finalize; Q-ratio value not checked here | stubs: <[u32]>::select_nth_unstable -> order statistic of the ghost copy defined by counting (+ explicit monotonicity); FuzzyHashLengthEncoding::new -> its contract (proved by c09_new_total/c09_code_def)
 lemma_f!(f_short_main, GShort, sym_short, 48, 12, None::<u32>, false, 52, 7, false);
 //@ h=f_normal_main props=C01,C10,C11,C15,C03 cfgs=K1 tier=q t=1500 native=native_f_normal | funcs: inner::Generator<Normal>::finalize_with_options, naive aggregate_128 | bound: as f_short_main with 128 counters, but the three quartiles are ANY q1<=q2<=q3 (superset of the real order statistics; the honest order-statistic model is used on the 48-counter instance of the same generic code) | stubs: select_nth_unstable order-statistic model; FuzzyHashLengthEncoding::new contract
 lemma_f!(f_normal_main, GNormal, sym_normal, 128, 32, None::<u32>, false, 132, 7, true);
@@ -1028,7 +1028,7 @@ lemma_lenb!(lenb_short_r5_n4, GShort, sym_short, 1, T_M48, 5, 4);
 //@ h=lenb_longl_r3_n5 props=C11 cfgs=K0 tier=q t=600 | funcs: inner::Generator<LongWithLongChecksum>::update, processed_len | bound: three bytes of room, piece of 5 bytes | stubs: mapping + increment logging stubs
 lemma_lenb!(lenb_longl_r3_n5, GLongL, sym_long_l, 3, T_M256, 3, 5);
 
-//@ h=len_processed props=C11,C03,C10 cfgs=K1 tier=q t=300 | funcs: inner::Generator::processed_len, Generator<T>::processed_len | bound: all (len, tail_len<=4): == checked u64 sum
+//@ h=len_processed props=C11,C03,C10,C09 cfgs=K1 tier=q t=300 | funcs: inner::Generator::processed_len, Generator<T>::processed_len | bound: all (len, tail_len<=4): == checked u64 sum
 #[kani::proof]
 #[kani::unwind(4)]
 fn len_processed() {
